@@ -2,7 +2,7 @@
 EXTENDS DnsParse
 Deep3 == {<<"A1","CC","A2">>, <<"CL","CC","CC">>, <<"CP","TX","A1">>}
 DgQuick == {g.d : g \in All(1) \cup UNION {Family(ks) : ks \in {<<"CC","CL">>, <<"TX","A2">>} \cup Deep3}}
-DgThorough == {g.d : g \in All(2) \cup UNION {Family(ks) : ks \in Deep3}}
+DgThorough == {g.d : g \in All(3)}
 \* as found, the 65535-record datagrams just take 65535 (terminating) iterations: left out of the as-found runs
 DgCov == {g.d : g \in {T("good", Good(<<"A1","CC","TX">>))} \cup Truncs(Good(<<"A1","CC","TX">>)) \cup PtrMuts(Good(<<"CC">>))}
 DgAsFound == {x \in {g.d : g \in Family(<<"A1","CC">>)} : Len(x) < 8 \/ x[7] # 255}
